@@ -39,13 +39,20 @@ func init() {
 
 func init() {
 	register(&PropSpec{ID: "TMPARMS", Explanation: "tmp", Run: func(r *Report) {
-		ruleStorageArms(r)
-		ruleIndexArms(r)
-		ruleTriggerArms(r)
-		ruleKeyArms(r)
-		ruleSortArms(r)
-		ruleMarkerArms(r)
-		ruleUnits(r, "C01.units", "units", 50, nil)
-		ruleUnitDefs(r)
+		ruleCommitOrder(r, true, true)
+		ruleEmitOnce(r)
+		ruleDirty(r)
+		ruleEmitFields(r)
+		ruleQueryPaths(r)
+		ruleEffectsBelowCommit(r)
+		ruleIsolation(r)
+		ruleRelease(r)
+		ruleReadersIgnoreBuffers(r)
+		ruleGrow(r)
+		ruleCommitUpdates(r)
+		ruleRowDelete(r)
+		ruleRegister(r)
+		ruleBackfill(r)
+		ruleReplayOrder(r)
 	}})
 }
